@@ -47,13 +47,17 @@ def gen_model(rng, *, n_links=None, max_links=6, free_root=None, ortho=False,
               geom_elasticity=False, axis_aligned=False, identity_quat=False,
               geom_types=('sphere', 'capsule', 'box'), iterations=None,
               limit_prob=0.4, stiffness=True, root_parent_only=False,
-              max_geoms=2, chain=False, min_stack=1):
+              max_geoms=2, chain=False, min_stack=1, parents=None):
+  if parents is not None:
+    n_links = len(parents)
   n = n_links or int(rng.integers(1, max_links + 1))
   bodies = []
   for i in range(n):
     parent = -1 if i == 0 else int(rng.integers(-1, i))
     if chain and i > 0:
       parent = i - 1  # one deep chain (depth = number of links)
+    if parents is not None:
+      parent = int(parents[i])
     if root_parent_only and i > 0 and parent == -1:
       parent = int(rng.integers(0, i))
     b = {'name': 'b%d' % i, 'parent': parent, 'children': []}
@@ -430,3 +434,25 @@ def special_state(mj, kind, rng=None):
   if kind == 'tiny':
     qd = rng.uniform(-1, 1, mj.nv) * 1e-6
   return q, qd
+
+
+def all_forests(n):
+  """All ordered forests with n nodes as preorder parent lists (Catalan(n))."""
+  out = []
+
+  def rec(parents):
+    i = len(parents)
+    if i == n:
+      out.append(list(parents))
+      return
+    # the parent of node i is -1 or any node on the path from node i-1 to
+    # its root (preorder numbering)
+    cands = [-1]
+    p = i - 1
+    while p != -1:
+      cands.append(p)
+      p = parents[p]
+    for c in cands:
+      rec(parents + [c])
+  rec([-1])
+  return out
